@@ -83,6 +83,8 @@ static struct {
         /* for each consumed frame: was the device open, who was subscribed … filled by the harness if wanted */
 } env_cap;
 
+static void (*env_on_capture)(int k);    /* called when the daemon reads frame k from the capture object */
+static unsigned env_buffer_count = 0;    /* daemon option -buffers (0: default) */
 static void env_make_frame(int k, env_frame_t *f)
 {
         static const struct { unsigned id; int line; } L[ENV_FRAME_LINES] = {
@@ -107,6 +109,7 @@ static int cap_read(vbi_capture *c, vbi_capture_buffer **raw, vbi_capture_buffer
         if (env_cap.efd < 0 || read(env_cap.efd, &v, 8) != 8) { env_cap.empty_reads++; return 0; }   /* timeout: no frame due */
         int k = env_cap.consumed++;
         env_frame_t *f = &env_cap.frame[k % ENV_MAX_FRAMES];
+        if (env_on_capture) env_on_capture(k);
         if (raw && *raw && (*raw)->data) { memset((*raw)->data, k, 64); (*raw)->size = 64; (*raw)->timestamp = f->timestamp; }
         if (sliced) {
                 static vbi_capture_buffer own; static vbi_sliced own_lines[ENV_FRAME_LINES];
@@ -431,7 +434,7 @@ static void env_init(void)
         memset(&proxy, 0, sizeof proxy);
         proxy.tcp_ip_fd = -1;
         pthread_mutex_init(&proxy.clnt_mutex, NULL);
-        opt_debug_level = getenv("PROXYD_DEBUG") ? atoi(getenv("PROXYD_DEBUG")) : 0; opt_max_clients = DEFAULT_MAX_CLIENTS; opt_buffer_count = DEFAULT_BUFFER_COUNT;
+        opt_debug_level = getenv("PROXYD_DEBUG") ? atoi(getenv("PROXYD_DEBUG")) : 0; opt_max_clients = DEFAULT_MAX_CLIENTS; opt_buffer_count = env_buffer_count ? env_buffer_count : DEFAULT_BUFFER_COUNT;
         vbi_proxy_msg_set_debug_level(0);
         vbi_proxy_msg_set_logging(FALSE, 0, 0, NULL);
         struct sigaction act; memset(&act, 0, sizeof act); act.sa_handler = SIG_IGN; sigaction(SIGPIPE, &act, NULL);
